@@ -218,6 +218,51 @@ func (x *gen) tape(n, words, style int) []uint32 {
 	return t
 }
 
+// manySetsOp: nine to thirteen effective required sets (beyond any one-byte or one-word bit
+// mask), each the alphabet minus one character, so that a candidate made of a single character
+// misses exactly one of them; tapes are aimed at such candidates, one requirement at a time.
+func (x *gen) manySetsOp() {
+	n := 9 + x.g.intn(2)
+	chars := []rune("abcdefghijklmnopqrstuvwxyz")[:n+1+x.g.intn(2)]
+	var r recipeSpec
+	for i := 0; i < n; i++ {
+		var b strings.Builder
+		for j, c := range chars {
+			if j != i {
+				b.WriteRune(c)
+			}
+		}
+		r.rs = append(r.rs, b.String())
+	}
+	if x.g.chance(40) {
+		r.require = 4 // plus the digits, as a class
+		r.ac = "5"
+	}
+	r.L = 2 + x.g.intn(4)
+	N := alphabetSize(r)
+	if N == 0 {
+		return
+	}
+	// attempt k: the character missing from set k, L times (alphabet is sorted: index of chars[k])
+	var t []uint32
+	digits := 0
+	if r.require != 0 {
+		digits = 10
+	}
+	order := x.g.intn(n)
+	for a := 0; a < 4; a++ {
+		k := (order + a*3) % n
+		for i := 0; i < r.L; i++ {
+			t = append(t, uint32(digits+k))
+		}
+	}
+	t = append(t, x.tape(N, r.L*2, 0)...)
+	x.emit("chargen r=%s T=6 fr=1:1 tape=%s", r.enc(), encWords(t))
+	if x.g.chance(25) {
+		x.emit("charinfo r=%s", r.enc())
+	}
+}
+
 // classRoleBlock: every class flag in every role (allowed, required, excluded) against every
 // other class in every other role, plus one custom character from inside and one from outside
 // the class: the small recipes on which a wrong table entry, a dropped flag or a mis-ordered
@@ -260,7 +305,15 @@ func (x *gen) classRoleBlock() {
 func (x *gen) collisionPairOps() {
 	var a, b recipeSpec
 	a.L = 2 + x.g.intn(5)
-	switch x.g.intn(4) {
+	switch x.g.intn(6) {
+	case 4, 5:
+		// the same characters required as two sets or as one: on either side of the refusal
+		// threshold for short lengths
+		a.L = 2 + x.g.intn(2)
+		a.rs = []string{"abc", "def"}
+		a.ac = "ghijklmnopqrstuvwxyz"[:x.g.intn(14)]
+		b = a
+		b.rs = []string{"abcdef"}
 	case 0:
 		a.rs = []string{"a", "b"}
 		a.ac = "xyz"
@@ -1122,6 +1175,23 @@ func uniq(l []string) []string {
 	return kept
 }
 
+// namedFlagBlock: every named flag constant of the package in every role (the model uses the
+// documented value of the name, the harness the package's constant).
+func (x *gen) namedFlagBlock() {
+	names := []string{"Uppers", "Lowers", "Digits", "Symbols", "Ambiguous", "None", "Letters", "All"}
+	for _, n := range names {
+		x.emit("charinfo r=4/%s/0/0/_/-/_", n)
+		x.emit("charinfo r=4/All/%s/0/_/-/_", n)
+		x.emit("charinfo r=4/All/0/%s/_/-/_", n)
+		x.emit("charinfo r=4/31/%s/%s/_/-/_", n, names[x.g.intn(len(names))])
+		tape := make([]uint32, 40)
+		for i := range tape {
+			tape[i] = x.g.u32()
+		}
+		x.emit("chargen r=5/All/%s/0/_/-/_ tape=%s", n, encWords(tape))
+	}
+}
+
 // presets driven through the complete cell of first-word residues
 func (x *gen) presetCells() {
 	for _, p := range []struct {
@@ -1234,6 +1304,48 @@ func (x *gen) historyOps(steps int) {
 	}
 }
 
+// sepHistoryOps: ONE separator function (a recipe with requirements, so that a draw can run out of
+// trials) used by several calls: a call whose separator draws succeed, a call whose second
+// separator runs out of trials, the first call again. A separator function must not remember
+// anything between calls.
+func (x *gen) sepHistoryOps() {
+	base := x.g.intn(1 << 20)
+	sets := [][2]string{{"01234", "56789"}, {"ab", "cd"}, {"x", "yz"}}[x.g.intn(3)]
+	var sr recipeSpec
+	sr.L = 2
+	sr.rs = []string{sets[0], sets[1]}
+	n := alphabetSize(sr)
+	first := 0
+	second := len([]rune(sets[0])) // sorted alphabet: index of the first character of the second set
+	sep := "recipe:" + sr.enc()
+	wl := []string{"aa", "bb", "cc"}
+	T := 3 + x.g.intn(4)
+	line := func(L int, good []bool) {
+		var t []uint32
+		for i := 0; i < L; i++ {
+			t = append(t, uint32(x.g.intn(len(wl))))
+			if i < L-1 {
+				if good[i] {
+					t = append(t, uint32(first), uint32(second))
+				} else {
+					for k := 0; k < T; k++ {
+						t = append(t, uint32(first), uint32(first))
+					}
+				}
+			}
+		}
+		// the separator call made by Entropy()
+		t = append(t, uint32(first), uint32(second), 0, 0, 0, 0)
+		_ = n
+		x.emit("wlgen words=%s titles=%s L=%d sep=%s sepobj=s%d cap=_ T=%d fr=1:1 tape=%s", encList(wl), encList(wordTitles(wl)), L, sep, base, T, encWords(t))
+	}
+	line(3, []bool{true, true})
+	line(3, []bool{true, false})
+	line(2, []bool{false})
+	line(3, []bool{false, true})
+	line(3, []bool{true, true})
+}
+
 // fault injection (C09): a generation replayed with the tape cut at every read position, with
 // stray bytes after the cut, and with reads split into short reads.
 func (x *gen) faultOps() {
@@ -1264,8 +1376,16 @@ func (x *gen) faultOps() {
 	wline := func(tt []uint32, extra string) {
 		x.emit("wlgen %s L=%d sep=%s cap=%s tape=%s%s", wa, L, sep, encCps(scheme), encWords(tt), extra)
 	}
-	wline(wt, "")
+	wline(wt, " twice=1")
 	wline(wt, fmt.Sprintf(" chunk=%d", x.g.next()%1000000))
+	// many coin flips, not all equal, twice on the same bytes
+	if x.g.chance(50) {
+		ct := make([]uint32, 40)
+		for i := range ct {
+			ct[i] = x.g.u32()
+		}
+		x.emit("wlgen words=97,98 titles=65,66 L=12 sep=char:_ cap=%s tape=%s twice=1", encCps("random"), encWords(ct))
+	}
 	for k := 0; k <= len(wt) && k <= 10; k++ {
 		e := ""
 		if x.g.chance(50) {
@@ -1296,11 +1416,17 @@ func generate(prop, tier string, seed uint64) []string {
 		rep(40, func() { x.chargenOp(x.recipe(1), "") })
 		rep(60, func() { x.longCapsOp() })
 	case "C02":
+		for i := 0; i < 10*scale/scale; i++ {
+			x.manySetsOp()
+		}
 		rep(60, x.sameLeadOp)
 		rep(40, func() { x.cellOps(1500) })
 		rep(400, func() { x.chargenOp(x.recipe(1), "") })
 		rep(300, func() { x.chargenOp(x.recipe(0), "") })
 	case "C03":
+		for i := 0; i < 10*scale/scale; i++ {
+			x.manySetsOp()
+		}
 		x.classRoleBlock()
 		rep(80, x.sameLeadOp)
 		rep(600, func() { x.charinfoOp(x.recipe(x.g.intn(4))) })
@@ -1321,6 +1447,9 @@ func generate(prop, tier string, seed uint64) []string {
 		rep(300, func() { x.wlgenOp("wlent", "") })
 		rep(15, func() { x.wlCellOps(600) })
 	case "C07":
+		for i := 0; i < 3; i++ {
+			x.manySetsOp()
+		}
 		rep(8, x.collisionPairOps)
 		rep(1200, func() { x.charinfoOp(x.recipe(3)) })
 		rep(400, func() { x.charinfoOp(x.recipe(0)) })
@@ -1344,6 +1473,7 @@ func generate(prop, tier string, seed uint64) []string {
 		rep(700, func() { x.chargenOp(x.recipe(x.g.intn(4)), "") })
 		rep(500, func() { x.charinfoOp(x.recipe(x.g.intn(4))) })
 		rep(300, func() { x.wlgenOp("wlgen", "") })
+		rep(12, x.collisionPairOps)
 		x.emit("wlgen words=nil L=3 sep=char:_ cap=_ tape=1.2.3")
 		x.emit("chargen r=0/0/0/0/_/-/_ tape=1.2.3")
 	case "C14":
@@ -1354,6 +1484,7 @@ func generate(prop, tier string, seed uint64) []string {
 		x.presetCells()
 	case "C15":
 		rep(8, x.collisionPairOps)
+		rep(6, x.sepHistoryOps)
 		rep(60, func() { x.historyOps(25) })
 	case "C16":
 		x.classRoleBlock()
@@ -1364,6 +1495,7 @@ func generate(prop, tier string, seed uint64) []string {
 			x.emit("charinfo r=1/%d/0/0/_/-/_", f)
 		}
 		x.emit("charinfo r=7/15/0/16/_/-/_")
+		x.namedFlagBlock()
 		rep(100, func() { x.wlgenOp("wlgen", "") })
 		// ordinary use of the library in the same process (custom exclusions next to the Ambiguous
 		// class, requirements, custom strings) …
